@@ -42,6 +42,9 @@ func (c *Ctx) newRef(hint string) string {
 	// distinct from every reference a call has returned so far: memory allocated now cannot
 	// be memory that somebody already held
 	// (encoded with an allocation clock: one fact per reference instead of one per pair)
+	for t2 := range c.arrFieldSeen {
+		c.asserts = append(c.asserts, sNot(sEq(r, t2)))
+	}
 	if c.freshAllocOpt() {
 		c.declareFun("atime", []string{"Int"}, "Int")
 		c.allocClock++
